@@ -76,7 +76,7 @@ def gen_case(rng, i, tier):
             "mask_edges": rng.random() < 0.6, "bypass": bypass, "tkind": tkind, "extra": extra,
             "path": rng.choice(["kernel", "grid", "grid"]), "dseed": rng.getrandbits(31), "order_seed": rng.getrandbits(8),
             "dask": rng.choice([None, None, "synchronous", "threads"]),
-            "suffix": rng.choice([None, None, "_on_rho", ""]), "name": rng.choice(["foo", "temp", None]),
+            "suffix": rng.choice([None, None, "_on_rho", ""]), "name": rng.choice(["foo", "temp", None, "temp_transformed", "sal_on_rho"]),
             "tdname": rng.choice(["dens", "sigma0", None]), "extra_pos": rng.sample(["left", "outer"], rng.choice([0, 1])),
             "dtype": rng.choice(["float64"] * 7 + ["int64", "float32", "float32"]), "decimal": decimal}
 
